@@ -3,7 +3,7 @@
 Suites
   k5_with            `to_with_form` (no cache) vs the model's `toWithForm none`                     (shared suite)
   c04_semopt_oracle  rows returned by the real SQL under use_with / use_cte_elim / merges vs the model's `semToSql`
-                     (shared k5_semopt; `c04_semopt_fix` = `semToSqlFix` when the tree has the N28 repair), with the
+                     (shared k5_semopt), with the
                      oracle `oracles.oracle_C04` on every k-th case: every combination use_with x use_cte_elim x
                      annotate x initial_commas x indent x extend-merge on/off, on SQLite and on the PostgreSQL dialect
                      (stand-in engine), must return the same table
@@ -27,20 +27,22 @@ PROPERTY = "C04"
 LEAN_MODULES = ["DAVerif.Props.C04", "DAVerif.Props.C04merge"]
 THEOREMS = ["DAVerif." + t for t in (
     "C04_names_unique", "C04_wf", "C04_with_form_sound", "C04_with_form_scoped_sound",
-    "C04_with_form_scoped_necessary", "C04_cte_elim_sound_key", "C04_cte_elim_sound", "C04_to_sql_options_sound",
-    "C04_cte_elim_closed_necessary", "C04_cte_elim_fixed_sound", "C04_with_form_fixed_sound",
-    "C04_to_sql_options_fixed_sound", "C04_key_ok_of_shape", "C04_names_irrelevant",
+    "C04_with_form_scoped_necessary", "C04_cte_elim_sound_key", "C04_with_form_sound_key", "C04_cte_elim_sound",
+    "C04_to_sql_options_sound", "C04_key_faithful_of_shape", "C04_names_irrelevant",
+    # the stub before fix N28: semantic faithfulness was not enough, faithful + closed was
+    "C04_cte_elim_closed_necessary", "C04_cte_elim_old_sound_key",
     # extend merge on/off (Props/C04merge.lean, proved by the SQL-A proofs)
     "Sql.C04_merge_option_sound", "Sql.C04_merge_invariant")]
 ASSUMPTIONS = [
     "the NearSQL translation `toNearSql`, the WITH form `toWithForm` and the bag semantics `semNear` of the SQL text "
     "(lean/DAVerif/Sql/*.lean) are the real code and the engine: tied by suites k5_with and k5_semopt on every run",
     "KeyFaithful: sub-queries with the same CTE-cache key (ops_key + bound columns) denote the same table - hypothesis "
-    "of the CTE-elimination theorems, not proved of toNearSql (reduced to a syntactic condition by C04_key_ok_of_shape); "
+    "of the CTE-elimination theorems, not proved of toNearSql (reduced to a syntactic condition by "
+    "C04_key_faithful_of_shape); "
     "tested by k5_semopt and by the oracle on pipelines biased to shared sub-DAGs",
     "SQL scoping of CTE names over table names is modelled by semWithC (Sql/WithFormG.lean), not by the shared semNear",
     "the real cache key contains Python set-iteration orders: the theorems hold for every key function that is "
-    "faithful (and, for the code as it is, closed) on the query, whatever it renders",
+    "semantically faithful on the query, whatever it renders",
     "the PostgreSQL dialect text is executed on SQLite 3.40.1 (no PostgreSQL server): that engine mis-evaluates a WHERE "
     "pushed into a sub-query over a native RIGHT/FULL JOIN; a row difference between two PostgreSQL-dialect texts "
     "containing such a join is discounted when the SQLite dialect (joins emulated) agrees on every option (counted as "
@@ -53,15 +55,16 @@ NOT_PROVEN = [
     "cleanAnnotation_no_line_break / C14_comment_inert show an annotation comment cannot change the token stream)",
     "extend merge on/off: Sql.C04_merge_option_sound (Props/C04merge.lean) covers the fragment of its hypotheses; the "
     "rest is oracle only",
-    "C04_key_faithful: toNearSql cfg p = .ok q -> KeyFaithful q (hypothesis; the syntactic version and `closed` are "
-    "false of toNearSql: finding N28)",
+    "C04_key_faithful: toNearSql cfg p = .ok q -> KeyFaithful q (hypothesis; the syntactic version `ShapeDet` is false "
+    "of toNearSql: corpus/C04/n28_dangling_cte.json)",
 ]
 LEVEL_TEXT = ("Kernel-checked for every interpretation, engine configuration, environment and NearSQL tree: the query "
               "names toNearSql generates are pairwise different; the WITH form without cache evaluates to the nested "
               "query, errors included, also under SQL's scoping of CTE names when no table is named like a generated "
               "query name (the guard is necessary: D24); CTE elimination is sound for every cache-key function that is "
-              "faithful and closed on the query, semantic faithfulness alone is not enough for the code as it is "
-              "(counterexample = finding N28, reproduced on the real code), and is enough for the repaired stub. The "
+              "semantically faithful on the query (the cache is consulted before a sub-query is converted: fix N28); for "
+              "the stub before that fix semantic faithfulness was not enough (counterexample, reproduced on the pre-fix "
+              "code) and faithful + closed was. The "
               "faithfulness of the real key, the extend-merge option and the three rendering options are covered by "
               "the differential oracle only.")
 LEVEL_NOTE = ("Trusted: Lean kernel; axioms propext/Classical.choice/Quot.sound; the shared SQL-layer model (validated by "
@@ -70,7 +73,8 @@ LEVEL_NOTE = ("Trusted: Lean kernel; axioms propext/Classical.choice/Quot.sound;
 RULE = ("random type-directed pipelines biased to shared sub-DAGs (pipes.gen_case shared=0.8) on random small tables; "
         "to_with_form skeletons and the rows under random (dialect, merges, use_with, use_cte_elim) are compared with "
         "the model; every k-th case is executed under all 24 option combinations x 2 merge settings x 2 dialects "
-        "(oracle_C04); hand-built NearSQL trees with random key assignments go through the real to_with_form; "
+        "(oracle_C04); hand-built NearSQL trees with random (semantically faithful) key assignments go through the "
+        "real to_with_form and the model's toWithFormG; "
         "non-trivial = the WITH form has at least one step / the pipeline returns a table")
 
 N27 = "N27-union-branch-order-limit"
@@ -140,21 +144,6 @@ Q_DANG = ["u", "u1", "U1", ["s", "n0", "K", ["t"]],
           ["u", "u2", "U2", ["s", "n", "K", ["s", "m", "KM", ["t"]]], ["s", "m2", "KM", ["t"]]]]
 Q_SHARE = ["u", "u", "U", ["s", "a", "K", ["t"]], ["s", "b", "K", ["t"]]]
 
-_FIXED = None
-
-
-def repo_has_stub_fix():
-    """does this tree consult the CTE cache before converting the sub-query (fixes/c04-cte-elim-lookup-before-
-    recursion.diff)?  behavioural probe on the hand-built counterexample; independent of the hash seed"""
-    global _FIXED
-    if _FIXED is None:
-        try:
-            _FIXED = dangling(with_form_outcome(Q_DANG, True)) is None
-        except Exception:
-            _FIXED = False
-    return _FIXED
-
-
 def _gen_tree(rng, counter, depth, keys):
     """random tree; keys are drawn from a small pool but only ever shared between sub-trees of the same SHAPE
     (so equal keys denote equal tables: the hypothesis KeyFaith of the theorems holds by construction)"""
@@ -178,13 +167,13 @@ def _gen_tree(rng, counter, depth, keys):
 
 class Stub(Suite):
     """the real `to_with_form(cte_cache={})` on hand-built trees whose keys are semantically faithful, compared with
-    `toWithFormG cacheKey` (code as it is) / `toWithFormFix cacheKey` (repaired stub) of Sql/WithFormG.lean, and checked
-    for dangling CTE references"""
+    `toWithFormG cacheKey` of Sql/WithFormG.lean (= the shared `toWithForm`), and checked for dangling CTE references
+    (finding N28, fixed: a dangling reference is a violation)"""
     name = "c04_stub"
     driver_suite = "c04_stub"
 
     def driver_case(self, case):
-        return {"tree": case["tree"], "cache": bool(case["cache"]), "fixed": repo_has_stub_fix()}
+        return {"tree": case["tree"], "cache": bool(case["cache"])}
 
     def __init__(self):
         self.distribution = {"hits": 0, "steps": 0}
@@ -214,9 +203,6 @@ class Stub(Suite):
         if len(set(names)) != len(names):
             return f"duplicate-cte-name: {names}"
         return None
-
-    def finding(self, case, real_out, why):
-        return N28 if why.startswith("dangling-cte-reference") and case.get("cache") else None
 
     def nontrivial(self, case, real_out):
         ok = isinstance(real_out, dict) and len(real_out.get("steps", [])) > 0
@@ -268,8 +254,9 @@ def _texts(ctx, dialect):
 
 
 def _explain(case, f):
-    """attribute an `options-change-result` failure: every differing combination must show, in its own error message,
-    the signature of ONE known finding; anything else stays unattributed"""
+    """name an `options-change-result` failure: when every differing combination shows, in its own error message, the
+    signature of a defect that was repaired (N27 09ea88a, N28) the failure is reported under that id - neither is a known
+    finding any more, so a reappearance is a VIOLATION; engine limits of the stand-in are discounted (see ASSUMPTIONS)"""
     dialect = "sqlite" if ":sqlite-" in f["kind"] else "pg"
     ctx = oracles.Ctx(case)
     texts = _texts(ctx, dialect)
@@ -295,8 +282,7 @@ def _explain(case, f):
                 ENGINE_LIMIT_SKIPS[0] += 1
             elif (not uw) and "should come after UNION ALL" in msg:
                 seen.setdefault(N27, (merges, uw, ce, msg[-70:]))
-            elif uw and ce and dialect == "pg" and m and _GEN_NAME.match(m.group(1).strip("\"'")) \
-                    and not repo_has_stub_fix():
+            elif uw and ce and dialect == "pg" and m and _GEN_NAME.match(m.group(1).strip("\"'")):
                 seen.setdefault(N28, (merges, uw, ce, msg[-70:]))
             else:
                 unexplained += 1
@@ -356,15 +342,14 @@ def _load_corpus(suite_name):
 
 
 class SemOpt(suites_sql.K5SemOpt):
-    """k5_semopt against the model of the code this tree has: `semToSql` (shared) or `semToSqlFix` (repaired stub)"""
+    """k5_semopt (rows under use_with / use_cte_elim / merges vs the shared `semToSql`) with capped case sizes"""
     name = "k5_semopt"
     n_quick, n_thorough = 144, 560
     max_result_rows = 300
 
     def __init__(self, **opts):
         super().__init__(**opts)
-        self.driver_suite = "c04_semopt_fix" if repo_has_stub_fix() else "k5_semopt"
-        self.distribution["model"] = self.driver_suite
+        self.driver_suite = "k5_semopt"
 
     @property
     def distribution(self):
